@@ -63,6 +63,15 @@ class Opaque:
         return f"<opaque {self.why}>"
 
 
+class SFmt(Opaque):
+    """an f-string whose only symbolic parts are ints: treated as unmodelled text everywhere, except where a model
+    needs the text (bitstruct format strings): there the int parts are decided by enumeration"""
+
+    def __init__(self, parts):
+        super().__init__("fstring")
+        self.parts = parts
+
+
 class Sym:
     __slots__ = ()
 
@@ -344,6 +353,20 @@ class Engine:
         self.dpos += 1
         self.assume(z == v)
         return v
+
+    def unique_value(self, z):
+        """the integer value of z if the path condition determines it uniquely, else None"""
+        z = z3.simplify(z)
+        if z3.is_int_value(z):
+            return z.as_long()
+        if self._check(2000) != z3.sat:
+            return None
+        v = self.solver.model().eval(z, model_completion=True)
+        if not z3.is_int_value(v):
+            return None
+        if self.feasible(z != v):
+            return None
+        return v.as_long()
 
     def choose(self, n, label="choice"):
         """Non-deterministic choice among n alternatives (all explored)."""
